@@ -38,6 +38,17 @@ def classify(tp, res_times):
 
 
 def gen_pass(rng, thorough, k):
+    if k % 16 == 5:
+        # the minimum-fraction limit of the second repair stage met EXACTLY: a pass crossing 1 January whose lines before
+        # the new year are exactly 1 % of a line count that is a multiple of 100, the first line after it at 00:00:00.000
+        fmt = rng.choice(list(FMT))
+        n = rng.choice([100, 200, 300])
+        nums = list(range(1, n + 1))
+        offs = timesgen.ideal_offsets(fmt, nums)
+        year = rng.choice([1992, 1996, 1999, 2000, 2003]) if FMT[fmt]["family"] == "pod" else rng.choice([1999, 2000, 2003, 2004, 2008])
+        c = n // 100
+        start = ydm_to_ms(year + 1, 1, 0) - int(offs[c])
+        return TimePass(fmt, nums, start), {"kind": "newyear-1pct", "gaps": "none", "n": n, "n0": 1}
     fmt = rng.choice(list(FMT))
     num, den = timesgen.period(fmt)
     n = rng.choice([1, 2, 3, 7, 60, 150, 400] + ([2000, 6000, 13000] if thorough else []) + ([1500] if k % 25 == 0 else []))
